@@ -14,6 +14,7 @@ import (
 	"github.com/protobom/protobom/pkg/sbom"
 	"github.com/protobom/protobom/pkg/storage"
 	"github.com/protobom/protobom/pkg/writer"
+	"verifharness/internal/core"
 	"google.golang.org/protobuf/proto"
 )
 
@@ -24,6 +25,18 @@ func init() {
 	extraCmds["storeone"] = cmdStoreOne
 	extraCmds["retrieveone"] = cmdRetrieveOne
 	extraCmds["storehist"] = cmdStoreHist
+	extraCmds["noop"] = func([]string) int { fmt.Println("OK"); return 0 }
+}
+
+// unprivPreflight starts one child as the unprivileged uid that does nothing. When even that child cannot be
+// started (the harness sits in a place that uid cannot reach, or the sandbox refuses setuid), the case is
+// inconclusive: nothing of the library would run in the children of this case.
+func unprivPreflight(c *core.C) bool {
+	if o := runChild(true, "noop"); o.kind != "OK" {
+		c.Violatef("harness-unpriv-child", nil, "cannot run a child process as uid %d: %s %s", unprivUID, o.kind, o.msg)
+		return false
+	}
+	return true
 }
 
 // histStep is one call of an in-process history (one FileSystem instance for the whole history).
@@ -183,7 +196,10 @@ const unprivUID = 65534
 
 // childCmd builds the command for a storage child running as the unprivileged uid.
 func childCmd(unpriv bool, args ...string) *exec.Cmd {
-	exe, _ := os.Executable()
+	exe := os.Getenv("VCHECK_CHILD_EXE")
+	if exe == "" {
+		exe, _ = os.Executable()
+	}
 	cmd := exec.Command(exe, args...)
 	cmd.Env = []string{"PATH=/usr/bin:/bin", "HOME=/nonexistent", "GOTRACEBACK=single"}
 	if unpriv {
@@ -229,6 +245,10 @@ func parseChildOutput(out []byte, exit int, runErr error) childOut {
 	msg := strings.TrimSpace(string(out))
 	if len(msg) > 400 {
 		msg = msg[:400]
+	}
+	if _, exited := runErr.(*exec.ExitError); runErr != nil && !exited {
+		// the child was never started (fork/exec failed): nothing of the library ran
+		return childOut{kind: "HARNESS", msg: fmt.Sprintf("child not started: %v", runErr), exit: exit}
 	}
 	return childOut{kind: "DIED", msg: fmt.Sprintf("exit %d (%v): %s", exit, runErr, msg), exit: exit}
 }
